@@ -197,6 +197,18 @@ class Algebra:
             inl = self.inline_private(c, a)
             if inl is not None:
                 return inl
+        if e[0] == "agg" and self.body is not None and self.depth < 6:
+            # `Ok(match x { .. })`: a payload assembled in a local on several branches
+            for k, op in enumerate(e[2]):
+                if op[0] == "local" and len(op) == 2:
+                    sub_cases = self.expand(op)
+                    if len(sub_cases) > 1 or (sub_cases and sub_cases[0][1] != op):
+                        out = []
+                        for at, v in sub_cases:
+                            rebuilt = ("agg", e[1], e[2][:k] + (v,) + e[2][k + 1:])
+                            for at2, w in self.expand(rebuilt):
+                                out.append((at + at2, w))
+                        return out
         return [((), self.rewrite(e))]
 
     def inline_private(self, name, args):
@@ -314,8 +326,8 @@ def expr_cases(ctx, body, node):
     """case table of one operand / rvalue of `body` (conditions are those introduced by the
     expression itself, not the path condition of where it stands)"""
     alg = Algebra(body.crate)
-    s, _ = ctx.sym(body)
-    alg.body, alg.sym = None, s
+    s, pc = ctx.sym(body)
+    alg.body, alg.sym = body, s
     if "k" in node and node["k"] in ("copy", "move", "const"):
         e = s.operand(node)
     elif "local" in node:
@@ -328,6 +340,12 @@ def expr_cases(ctx, body, node):
         bad = False
         for ee, val in extra:
             if ee[0] == "pc-of":
+                # value taken from a local assigned on several branches: the branch's own condition
+                ds = pc.conditions(ee[1])
+                if len(ds) == 1:
+                    for a in next(iter(ds)):
+                        if a not in conds:
+                            conds.append(a)
                 continue
             a = S.normalise_atom(alg.rewrite(ee), val)
             f = S.fold_atom(a[0], a[1])
